@@ -194,7 +194,7 @@ def UrrSpec.periodic (p : UrrSpec) : Bool := match p.triggers with
 def VolSpec.WF (v : VolSpec) : Prop :=
   v.flags < 8 ∧ v.flags ≠ 0 ∧ v.total < 2 ^ 64 ∧ v.uplink < 2 ^ 64 ∧ v.downlink < 2 ^ 64
 def UrrSpec.WF (p : UrrSpec) : Prop :=
-  p.id < 2 ^ 32 ∧ (∀ v, p.method = some v → v < 256) ∧ (∀ b, p.triggers = some b → 2 ≤ b.length) ∧
+  p.id < 2 ^ 32 ∧ (∀ v, p.method = some v → v < 256) ∧ (∀ b, p.triggers = some b → b.length = 2 ∨ b.length = 3) ∧
   (∀ v, p.info = some v → v < 256) ∧ (∀ v, p.threshold = some v → v.WF) ∧ (∀ v, p.quota = some v → v.WF)
 
 /-! ### BAR -/
